@@ -204,14 +204,16 @@ pub fn gen_jitter_spec(rng: &mut Prng, prop: &str, allowed: &[CF], c16_bias: boo
     // long haul: tens of thousands of collections from ONE instance without a fresh next_u32 in
     // between (counters / epochs kept per instance wrap at 2^8 or 2^16 collections), then the calls
     // that depend on whether a half is pending
-    if spec.variant == "jitter_history" && rng.chance(1, 1500) {
-        let n = *rng.pick(&[255u32, 256, 257, 65_535, 65_535, 65_536, 65_537]);
-        let tail = rng.below(5) as u32;
+    if spec.variant == "jitter_history" && rng.chance(1, 400) {
+        // (the 2^8 sizes are cheap, the 2^16 sizes cost about half a second each)
+        let n = if rng.chance(1, 2) { *rng.pick(&[254u32, 255, 256, 257]) } else { *rng.pick(&[65_534u32, 65_535, 65_536, 65_537]) };
+        let tail = if rng.chance(3, 4) { 0 } else { rng.range(1, 7) as u32 };
         let mut ops = Vec::new();
-        match rng.below(4) {
+        match rng.below(5) {
             0 => ops.extend([Op::U32, Op::U32]),
             1 => ops.push(Op::U32),
             2 => ops.push(Op::Fork),
+            3 => ops.push(Op::U64),
             _ => {}
         }
         ops.push(Op::Fill(8 * n + tail));
